@@ -362,15 +362,13 @@ Proof.
     repeat split; try assumption.
     unfold tSE, c_StructEnd, k_codec_StructEnd.
     destruct ((ty =? 11) || (tag <? tg))%N eqn:C1.
-    + replace (if Z.of_N ty =? 11 then true else Z.of_N tag <? Z.of_N tg) with true
-        by (destruct (Z.of_N ty =? 11) eqn:Q; lia).
+    + decide_conds.
       destruct req; cbn [bindc go_iter]; [reflexivity|].
       rewrite U1. cbn [go_call go_iter]. exists p'. repeat split; try assumption; lia.
-    + replace (if Z.of_N ty =? 11 then true else Z.of_N tag <? Z.of_N tg) with false
-        by (destruct (Z.of_N ty =? 11) eqn:Q; lia).
+    + decide_conds.
       cbn [bindc]. destruct (tg =? tag)%N eqn:C2.
-      * replace (Z.of_N tg =? Z.of_N tag) with true by lia. cbn [bindc go_iter]. reflexivity.
-      * replace (Z.of_N tg =? Z.of_N tag) with false by lia. cbn [bindc].
+      * decide_conds. cbn [bindc go_iter]. reflexivity.
+      * decide_conds. cbn [bindc].
         destruct (tr_skipField F (Z.of_N ty) (mk ref (p + (if two then 2 else 1)) d)) as [u|[rd3 e]|]; cbn [go_call go_iter]; try reflexivity.
         destruct e; cbn [Bool.eqb negb bindc go_iter]; reflexivity.
   - destruct RH as (p' & ty & tg & -> & E & L1 & L2). cbn [go_call Bool.eqb negb bindc].
@@ -446,6 +444,10 @@ Definition lbody (F : nat) : Z -> go_reader -> ctl go_reader (go_reader * bool) 
       bindc (if negb (Bool.eqb err_1 false) then Return (rd2, err_1) else Next rd2)
         (fun rd3 : go_reader => go_call (tr_skipField F tyCur rd3) (fun r__ => let '(rd4, _) := r__ in Next rd4))).
 
+(* the generated loop body is [lbody], whatever the shape of its error test *)
+Ltac lbody_eq := intros ? rd__; unfold lbody; destruct (tr_readHead rd__) as [?|[[[? ?] ?] e__]|]; cbn [go_call]; try reflexivity;
+  destruct e__; cbn [Bool.eqb negb bindc]; reflexivity.
+
 Lemma tr_skipNested_sim sk ref p d (s : st) r : (d < maxd)%N ->
   sim (sk (mk ref p (Z.of_N (d + 1)))) ref (Z.of_N (d + 1)) s r ->
   sim (tr_skipNested sk (mk ref p (Z.of_N d))) ref (Z.of_N d) s r.
@@ -463,13 +465,15 @@ Proof.
   assert (M : maxd = 512%N) by reflexivity. rewrite M in Hd. replace (512 <=? Z.of_N d) with true by lia. reflexivity.
 Qed.
 
-Lemma sim_wrap c ref dd s r : sim c ref dd s r ->
-  sim (bindc (go_call c (fun r__ => let '(rd, e) := r__ in
-                bindc (if negb (Bool.eqb e false) then Return (rd, e) else Next rd) (fun rd0 : go_reader => Next rd0)))
-             (fun rd : go_reader => Return (rd, false))) ref dd s r.
-Proof.
-  intros (p' & -> & Er & Hp'). cbn [go_call]. exists p'. destruct s; cbn [err_of Bool.eqb negb bindc]; (split; [reflexivity|split; assumption]).
-Qed.
+
+(* the same for whatever shape the error test after the call has: reduce the goal to the callee's simulation *)
+Ltac sim_wrap := match goal with
+  | |- sim (bindc (go_call ?c _) _) ?ref ?dd ?s ?r =>
+      let H := fresh "H" in let p' := fresh "p'" in let Er := fresh "Er" in let Hp' := fresh "Hp'" in
+      assert (H : sim c ref dd s r);
+      [| destruct H as (p' & -> & Er & Hp'); cbn [go_call]; exists p';
+         destruct s; cbn [err_of Bool.eqb negb bindc]; (split; [reflexivity|split; assumption])]
+  end.
 
 Lemma wrapS32_wrap32 z : wrapS 32 z = Skip.wrap32 z.
 Proof.
@@ -536,14 +540,14 @@ Proof.
       destruct (maxd <=? d)%N eqn:Dp.
       * inversion H; subst s r; clear H. rewrite tr_skipNested_deep by lia. cbn [go_call bindc Bool.eqb negb].
         exists p. repeat split; try assumption; lia.
-      * apply sim_wrap. apply tr_skipNested_sim; [lia|].
+      * sim_wrap. apply tr_skipNested_sim; [lia|].
         destruct F as [|F2]; [lia|]. destruct F2 as [|[|F3]]; [lia|lia|]. cbn [tr_skipFieldMap].
         assert (Hok' : ok (mk ref p (Z.of_N (d + 1)))) by exact Hok.
         pose proof (tr_ReadInt32_count F3 ref p (Z.of_N (d + 1)) 0 Hok') as RC.
         destruct (read_count (go_drop ref p)) as [n r0|r0].
         -- destruct RC as (p' & -> & E2 & L2 & Rn). cbn [go_call bindc Bool.eqb negb].
            unfold go_count. rewrite Z.sub_0_r. rewrite wrapS32_wrap32.
-           match goal with |- context [go_count_from _ _ ?b _] => change b with (lbody (S (S F3))) end.
+           match goal with |- context [go_count_from _ _ ?b _] => rewrite (go_count_from_ext b (lbody (S (S F3)))) by lbody_eq end.
            destruct (IHn (S (S F3)) ref p' (d + 1)%N (Skip.wrap32 (n * 2)) 0 s r ltac:(lia)) as (p'' & EL & Er'' & Hp''); try assumption.
            { repeat split; cbn [rd_pos rd_ref]; try assumption; lia. }
            { lia. }
@@ -556,14 +560,14 @@ Proof.
       destruct (maxd <=? d)%N eqn:Dp.
       * inversion H; subst s r; clear H. rewrite tr_skipNested_deep by lia. cbn [go_call bindc Bool.eqb negb].
         exists p. repeat split; try assumption; lia.
-      * apply sim_wrap. apply tr_skipNested_sim; [lia|].
+      * sim_wrap. apply tr_skipNested_sim; [lia|].
         destruct F as [|F2]; [lia|]. destruct F2 as [|[|F3]]; [lia|lia|]. cbn [tr_skipFieldList].
         assert (Hok' : ok (mk ref p (Z.of_N (d + 1)))) by exact Hok.
         pose proof (tr_ReadInt32_count F3 ref p (Z.of_N (d + 1)) 0 Hok') as RC.
         destruct (read_count (go_drop ref p)) as [n r0|r0].
         -- destruct RC as (p' & -> & E2 & L2 & Rn). cbn [go_call bindc Bool.eqb negb].
            unfold go_count. rewrite Z.sub_0_r.
-           match goal with |- context [go_count_from _ _ ?b _] => change b with (lbody (S (S F3))) end.
+           match goal with |- context [go_count_from _ _ ?b _] => rewrite (go_count_from_ext b (lbody (S (S F3)))) by lbody_eq end.
            destruct (IHn (S (S F3)) ref p' (d + 1)%N n 0 s r ltac:(lia)) as (p'' & EL & Er'' & Hp''); try assumption.
            { repeat split; cbn [rd_pos rd_ref]; try assumption; lia. }
            { lia. }
@@ -576,12 +580,12 @@ Proof.
       destruct (maxd <=? d)%N eqn:Dp.
       * inversion H; subst s r; clear H. rewrite tr_skipNested_deep by lia. cbn [go_call bindc Bool.eqb negb].
         exists p. repeat split; try assumption; lia.
-      * apply sim_wrap. apply tr_skipNested_sim; [lia|].
+      * sim_wrap. apply tr_skipNested_sim; [lia|].
         apply IHe; try assumption; try lia.
     + (* StructEnd *) cbn [bindc]. exists p. repeat split; try assumption; lia.
     + (* ZeroTag *) cbn [bindc]. exists p. repeat split; try assumption; lia.
     + (* SimpleList *)
-      apply sim_wrap. destruct F as [|[|[|F3]]]; try lia. cbn [tr_skipFieldSimpleList].
+      sim_wrap. destruct F as [|[|[|F3]]]; try lia. cbn [tr_skipFieldSimpleList].
       pose proof (tr_readHead_equiv ref p (Z.of_N d) Hok) as RH. unfold read_head in H.
       destruct (read_head2 (go_drop ref p)) as [[[[t tg] r0] two]|].
       * destruct RH as (-> & Er & Lr & Ht & Htg). cbn [go_call].
@@ -604,7 +608,7 @@ Proof.
            exists q. repeat split; try assumption; lia.
       * inversion H; subst s r; clear H. destruct RH as (p' & t & tg & -> & E & L1 & L2). cbn [go_call].
         exists p'. split; [|split; [assumption|lia]].
-        destruct (negb (t =? k_codec_BYTE)); cbn [bindc Bool.eqb negb]; reflexivity.
+        destruct (t =? k_codec_BYTE); cbn [bindc Bool.eqb negb]; reflexivity.
     + (* 14: invalid *) cbn [bindc]. exists p. repeat split; try assumption; lia.
     + (* 15: invalid *) cbn [bindc]. exists p. repeat split; try assumption; lia.
   - (* the element loop *)
@@ -1124,9 +1128,10 @@ Proof.
   destruct (seek_p f tag req (go_drop ref p)) as [t rest|rest| |]; cbn [seek_sim] in SK; try congruence.
   - destruct SK as (q & -> & Er & Hq & Ht). cbn [go_call bindc Bool.eqb negb].
     destruct (t =? ty)%N eqn:E.
-    + replace (Z.of_N ty =? Z.of_N t) with true by lia. cbn [negb bindc]. exists q. split; [reflexivity|exact Er].
-    + replace (Z.of_N ty =? Z.of_N t) with false by lia. cbn [negb bindc]. exists q. reflexivity.
-  - destruct SK as (q & t & -> & Er & Hq). cbn [go_call bindc Bool.eqb negb]. exists q. split; [reflexivity|exact Er].
+    + decide_conds. cbn [negb bindc]. exists q. split; [reflexivity|exact Er].
+    + decide_conds. cbn [negb bindc]. exists q. reflexivity.
+  - destruct SK as (q & t & -> & Er & Hq). cbn [go_call bindc Bool.eqb negb]. exists q.
+    split; [destruct (Z.of_N ty =? t); cbn [negb bindc]; reflexivity|exact Er].
   - destruct SK as (q & t & -> & Hq). cbn [go_call bindc Bool.eqb negb]. exists q. reflexivity.
 Qed.
 Lemma skip_to_p_clean f ty tag req bs : seek_p f tag req bs <> SeekFuel -> skip_to f ty tag req bs = skip_to_p f ty tag req bs.
